@@ -41,6 +41,8 @@ LEVEL = {
     "technique": "static analysis: ownership/cleanup-coverage dataflow on a CFG with exception edges",
 }
 LEVEL["decided"] += ' A call of a library helper that validates its argument (an explicit raise reachable for that call shape) counts as a point of failure in R04.1.'
+LEVEL["decided"] += " (R04.7) what Tee.__init__ builds is read off the evaluated heap: all children pull from the user's iterator itself."
+LEVEL["technique"] += '; evaluated tee construction over an object model'
 
 # handles that deliberately do not close what they wrap (K0)
 NON_OWNING_HANDLES = {
